@@ -571,7 +571,11 @@ def _closure_def_of(f, local):
 
 def _new_local(f, ty, tag):
     n = len(f["locals"])
-    f["locals"].append({"id": n, "ty": ty, "adt": None, "ref": None, "array_len": None, "user": None, "synth": tag})
+    ty = ty or "?"
+    ref = "mut" if ty.startswith("&mut ") else ("shared" if ty.startswith("&") else None)
+    base = ty[5:] if ref == "mut" else (ty[1:] if ref == "shared" else ty)
+    adt = base.split("<")[0] if "::" in base.split("<")[0] else None
+    f["locals"].append({"id": n, "ty": ty, "adt": adt, "ref": ref, "array_len": None, "user": None, "synth": tag})
     return n
 
 
@@ -617,6 +621,8 @@ def _desugar_transpose(f, bid, pending):
     """Option<Result<T, E>>::transpose: None => Ok(None), Some(Ok(v)) => Ok(Some(v)), Some(Err(e)) => Err(e)"""
     b = f["blocks"][bid]
     t = b["term"]
+    if t.get("self_adt") == "std::result::Result" and t.get("name") == "transpose" and t.get("resolved_crate") == "core" and len(t["args"]) == 1 and t.get("target") is not None:
+        return _desugar_transpose_result(f, bid, pending)
     if t.get("self_adt") != "std::option::Option" or t.get("name") != "transpose" or t.get("resolved_crate") != "core" or len(t["args"]) != 1 or t.get("target") is None:
         return False
     line, dest, target = t.get("line"), t["dest"], t["target"]
@@ -651,6 +657,48 @@ def _desugar_transpose(f, bid, pending):
     b["stmts"] = list(b["stmts"]) + pre + [mk(pl(d1), {"discriminant": pl(x)})]
     b["desugared_call"] = t
     b["term"] = {"k": "switch", "discr": {"move": pl(d1)}, "targets": [[1, b_some]], "otherwise": b_none, "line": line, "exp": "desugar:Combinator"}
+    if not dest["proj"]:
+        pending.append((target, b_none, dest["local"], "transpose"))
+    return True
+
+
+def _desugar_transpose_result(f, bid, pending):
+    """Result<Option<T>, E>::transpose: Ok(None) => None, Ok(Some(v)) => Some(Ok(v)), Err(e) => Some(Err(e))"""
+    b = f["blocks"][bid]
+    t = b["term"]
+    line, dest, target = t.get("line"), t["dest"], t["target"]
+    O, R = "std::option::Option", "std::result::Result"
+    mk = lambda place, rv: {"k": "assign", "place": place, "rv": rv, "line": line, "exp": None, "synth": True}
+    pl = lambda l, proj=(): {"local": l, "proj": list(proj)}
+    fld = lambda adt, vname, vidx: [{"k": "downcast", "variant": vname, "idx": vidx}, {"k": "field", "idx": 0, "name": "0", "adt": adt}]
+    agg = lambda adt, vname, vidx, ops: {"aggregate": {"kind": "adt", "adt": adt, "variant": vname, "idx": vidx, "fields": ["0"] if ops else []}, "ops": ops}
+    goto_t = {"k": "goto", "target": target, "line": line, "exp": None}
+    sop = t["args"][0]
+    spl = sop.get("move")
+    pre = []
+    if spl and not spl["proj"]:
+        x = spl["local"]
+    else:
+        x = _new_local(f, t.get("self_ty") or R, "transpose-subject")
+        pre = [mk(pl(x), {"use": sop})]
+    ga = t.get("gargs") or []
+    d1 = _new_local(f, "isize", "transpose-discr")
+    d2 = _new_local(f, "isize", "transpose-discr2")
+    y = _new_local(f, ("std::option::Option<%s>" % ga[0]) if ga else "?", "transpose-inner")
+    v = _new_local(f, ga[0] if ga else "?", "transpose-some")
+    okv = _new_local(f, "?", "transpose-ok")
+    e = _new_local(f, ga[1] if len(ga) > 1 else "?", "transpose-err")
+    ev = _new_local(f, "?", "transpose-errv")
+    b_none = _new_block(f, [mk(dest, agg(O, "None", 0, []))], dict(goto_t), "transpose-none")
+    b_some = _new_block(f, [mk(pl(v), {"use": {"move": pl(y, fld(O, "Some", 1))}}), mk(pl(okv), agg(R, "Ok", 0, [{"move": pl(v)}])), mk(dest, agg(O, "Some", 1, [{"move": pl(okv)}]))],
+                        dict(goto_t), "transpose-some")
+    b_err = _new_block(f, [mk(pl(e), {"use": {"move": pl(x, fld(R, "Err", 1))}}), mk(pl(ev), agg(R, "Err", 1, [{"move": pl(e)}])), mk(dest, agg(O, "Some", 1, [{"move": pl(ev)}]))],
+                       dict(goto_t), "transpose-err")
+    b_ok = _new_block(f, [mk(pl(y), {"use": {"move": pl(x, fld(R, "Ok", 0))}}), mk(pl(d2), {"discriminant": pl(y)})],
+                      {"k": "switch", "discr": {"move": pl(d2)}, "targets": [[1, b_some]], "otherwise": b_none, "line": line, "exp": "desugar:Combinator"}, "transpose-ok")
+    b["stmts"] = list(b["stmts"]) + pre + [mk(pl(d1), {"discriminant": pl(x)})]
+    b["desugared_call"] = t
+    b["term"] = {"k": "switch", "discr": {"move": pl(d1)}, "targets": [[0, b_ok]], "otherwise": b_err, "line": line, "exp": "desugar:Combinator"}
     if not dest["proj"]:
         pending.append((target, b_none, dest["local"], "transpose"))
     return True
@@ -774,6 +822,8 @@ def _desugar_combinator(views, f, bid, depth, stack, pending):
         _splice(f, b_ok, h, cname, thread=False)
     if not dest["proj"]:
         pending.append((target, b_fail, dest["local"], cname or "combinator"))
+    # the subject itself may have been produced with a known variant just before (a Result-collecting pipeline, an inlined helper)
+    pending.append((bid, b_fail, x, "combinator-subject"))
     return True
 
 
@@ -894,59 +944,157 @@ def _alias_mapper(c):
     return n <= 2
 
 
-def _desugar_pipeline(views, f, bid, depth, stack):
-    """block `bid` ends in `m = Iterator::map|filter_map(move it, move closure) -> B`; B is `dest = Iterator::collect(move m)` into a Vec,
-    `Extend::extend(move &mut vec, move m)` on a Vec, or (bid itself) `Iterator::for_each(move it, move closure)`."""
-    b = f["blocks"][bid]
-    t = b["term"]
-    nm = t.get("name")
-    if t.get("trait") != "std::iter::Iterator" or t.get("target") is None or len(t["args"]) != 2 or t["dest"]["proj"]:
-        return False
-    if nm not in PIPE_ADAPTORS and nm != "for_each":
-        return False
-    cop = t["args"][1]
-    cpl = cop.get("move") or cop.get("copy")
-    if not cpl or cpl["proj"]:
-        return False
-    cname = _closure_def_of(f, cpl["local"])
-    if cname is None or cname not in views.raw or cname in stack:
-        return False
-    line = t.get("line")
-    mk = lambda place, rv: {"k": "assign", "place": place, "rv": rv, "line": line, "exp": None, "synth": True}
-    pl = lambda l, proj=(): {"local": l, "proj": list(proj)}
-    sink = None   # ("new", vec_local, vec_ty, after) | ("extend", ref_operand, vec_ty, after) | ("none", None, None, after)
-    if nm == "for_each":
-        sink = ("none", None, None, t["target"])
-        B = None
+STAGE_ADAPTORS = ("map", "filter_map", "filter")
+SINKS = ("collect", "extend", "for_each", "try_for_each")
+
+
+def _fnitem_call(views, fnitem, args, dest, target, line, unwind):
+    """call terminator applying a function item (see the combinator rewriting)"""
+    full = fnitem.get("fn_full") or fnitem["fn"]
+    m = re.match(r"^<(.*) as (.*)>::([A-Za-z_0-9]+)$", full)
+    if m:
+        fsty, ftrait, fname = m.group(1), m.group(2).split("<")[0], m.group(3)
     else:
-        m = t["dest"]["local"]
-        B = f["blocks"][t["target"]]
-        bt = B["term"]
-        if B["cleanup"] or bt["k"] != "call" or bt.get("target") is None or _preds_of(f, B["id"]) != [bid] or _local_uses(f, m) != 2:
-            return False
-        if any(st["k"] == "assign" for st in B["stmts"]):
-            return False
-        if bt.get("name") == "collect" and bt.get("trait") == "std::iter::Iterator" and len(bt["args"]) == 1 and (bt["args"][0].get("move") or {}).get("local") == m \
-                and not bt["dest"]["proj"] and (f["locals"][bt["dest"]["local"]]["ty"] or "").startswith("std::vec::Vec<"):
-            sink = ("new", bt["dest"]["local"], f["locals"][bt["dest"]["local"]]["ty"], bt["target"])
-        elif bt.get("name") == "extend" and bt.get("trait") == "std::iter::Extend" and len(bt["args"]) == 2 and (bt["args"][1].get("move") or {}).get("local") == m \
-                and (bt.get("self_ty") or "").startswith("std::vec::Vec<"):
-            rop = bt["args"][0]
-            rpl = rop.get("move") or rop.get("copy")
-            if not rpl or rpl["proj"]:
+        fsty, ftrait, fname = None, None, full.split("<")[0].rsplit("::", 1)[-1]
+        if "::" in full:
+            fsty = full.rsplit("::", 1)[0]
+    local_fn = fnitem["fn"] in views.raw
+    return {"k": "call", "callee": fnitem["fn"], "callee_full": full, "name": fname, "resolved": fnitem["fn"] if local_fn else full, "resolved_full": full,
+            "resolved_local": local_fn, "callee_local": local_fn, "args": args, "dest": dest, "target": target, "unwind": unwind, "line": line,
+            "exp": None, "synth": True, "gargs": [], "trait": ftrait, "self_ty": fsty, "self_adt": (fsty or "").split("<")[0] or None,
+            "callee_crate": None, "resolved_crate": None, "instance_kind": "Item", "ret_never": False}
+
+
+def _desugar_pipeline(views, f, bid, depth, stack):
+    """An iterator pipeline that starts in block `bid`:
+         source . (map C | filter_map C | filter P)* . (collect::<Vec|Result<Vec>|Map|Result<Map>> | extend(vec) | for_each C | try_for_each C)
+    every adaptor's result consumed by the next call only. It is rewritten into the loop it abbreviates (the block shape of a `for` loop),
+    with closure bodies spliced in and function-item mappers applied as ordinary calls."""
+    blocks = f["blocks"]
+    b0 = blocks[bid]
+    t0 = b0["term"]
+    if t0.get("trait") != "std::iter::Iterator" or t0.get("target") is None or t0["dest"]["proj"] or not t0["args"]:
+        return False
+    if t0.get("name") not in STAGE_ADAPTORS + ("for_each", "try_for_each"):
+        return False
+    # ---- collect the chain ------------------------------------------------------------------------------------------------------
+    stages = []   # (kind, mapper operand, call terminator)
+    chain_blocks = [bid]
+    cur = b0
+    sink = None
+    while True:
+        t = cur["term"]
+        nm = t.get("name")
+        if nm in ("for_each", "try_for_each") and t.get("trait") == "std::iter::Iterator" and len(t["args"]) == 2:
+            sink = (nm, t, cur["id"])
+            break
+        if nm in STAGE_ADAPTORS and t.get("trait") == "std::iter::Iterator" and len(t["args"]) == 2 and not t["dest"]["proj"] and t.get("target") is not None:
+            stages.append((nm, t["args"][1], t))
+            m = t["dest"]["local"]
+            nxt = blocks[t["target"]]
+            nt = nxt["term"]
+            if nxt["cleanup"] or nt["k"] != "call" or _preds_of(f, nxt["id"]) != [cur["id"]] or _local_uses(f, m) != 2:
                 return False
-            sink = ("extend", rpl["local"], bt.get("self_ty"), bt["target"])
+            a0 = nt["args"][0] if nt.get("args") else None
+            arg_is_m = lambda a: isinstance(a, dict) and (a.get("move") or {}).get("local") == m and not (a.get("move") or {}).get("proj")
+            if nt.get("name") == "extend" and nt.get("trait") == "std::iter::Extend" and len(nt["args"]) == 2 and arg_is_m(nt["args"][1]):
+                sink = ("extend", nt, nxt["id"])
+                chain_blocks.append(nxt["id"])
+                break
+            if not arg_is_m(a0):
+                return False
+            if nt.get("name") == "collect" and nt.get("trait") == "std::iter::Iterator" and len(nt["args"]) == 1:
+                sink = ("collect", nt, nxt["id"])
+                chain_blocks.append(nxt["id"])
+                break
+            chain_blocks.append(nxt["id"])
+            cur = nxt
+            continue
+        return False
+    if sink is None or (not stages and sink[0] not in ("for_each", "try_for_each")):
+        return False
+    sk, st, sblock = sink
+    if st.get("target") is None or st["dest"]["proj"]:
+        return False
+    after = st["target"]
+    line = t0.get("line")
+    # ---- the sink's shape -------------------------------------------------------------------------------------------------------
+    dest_local = st["dest"]["local"]
+    dty = f["locals"][dest_local]["ty"] or ""
+    mode = None   # "vec" | "map" | "none" | "try";  wrapped = collecting into Result<..>
+    wrapped = False
+    if sk == "collect":
+        inner = dty
+        if dty.startswith("std::result::Result<"):
+            wrapped = True
+            inner = dty[len("std::result::Result<"):]
+        if inner.startswith("std::vec::Vec<"):
+            mode = "vec"
+        elif inner.startswith("serde_json::Map<"):
+            mode = "map"   # (std HashMap targets keep their call form: the lookup-table recogniser of C07.D-j reads `collect(filter_map(..))`)
         else:
             return False
-    if _alias_mapper(views.raw[cname]):
-        return False  # `.map(|s| s.as_str())`: the adaptor is an alias of the source sequence, not a loop worth spelling out
-    h = views.get(cname, depth + 1, stack + (f.get("_name"),))
-    if len(h["locals"]) < 3 or h.get("arg_count") != 2 or len(f["blocks"]) + len(h["blocks"]) + 8 > MAX_VIEW_BLOCKS:
+        coll_ty = inner if not wrapped else inner.rsplit(", ", 1)[0]
+    elif sk == "extend":
+        if not (st.get("self_ty") or "").startswith("std::vec::Vec<"):
+            return False
+        rop = st["args"][0]
+        rpl = rop.get("move") or rop.get("copy")
+        if not rpl or rpl["proj"]:
+            return False
+        mode, coll_ty = "vec", st.get("self_ty")
+    elif sk == "for_each":
+        stages.append(("map", st["args"][1], st))
+        mode, coll_ty = "none", None
+    else:
+        stages.append(("map", st["args"][1], st))
+        if not dty.startswith("std::result::Result<"):
+            return False
+        mode, coll_ty = "try", None
+    # ---- mappers: closures (spliced) or function items (called) ------------------------------------------------------------------
+    mappers = []
+    total = len(blocks)
+    for (kind, mop, tcall) in stages:
+        cpl = mop.get("move") or mop.get("copy")
+        if cpl is None and isinstance(mop.get("const"), dict) and mop["const"].get("fn"):
+            mappers.append(("fn", mop["const"], None, None))
+            continue
+        if not cpl or cpl["proj"]:
+            return False
+        cname = _closure_def_of(f, cpl["local"])
+        if cname is None or cname not in views.raw or cname in stack:
+            return False
+        if kind == "map" and len(stages) == 1 and sk in ("collect", "extend") and mode == "vec" and not wrapped and _alias_mapper(views.raw[cname]):
+            return False  # `.map(|s| s.as_str())`: the adaptor is an alias of the source sequence, not a loop worth spelling out
+        h = views.get(cname, depth + 1, stack + (f.get("_name"),))
+        if len(h["locals"]) < 3 or h.get("arg_count") != 2:
+            return False
+        total += len(h["blocks"]) + 8
+        mappers.append(("closure", cname, h, cpl["local"]))
+    if total > MAX_VIEW_BLOCKS:
         return False
-    kind, vec, vec_ty, after = sink
-    it_ty = t.get("self_ty") or "?"
+    # a pipeline that only wraps / re-borrows each element (`.map(Value::String)`, `.map(|s| s.as_str())`) into a plain collection is an
+    # element-wise conversion of the source sequence, not a loop worth spelling out
+    def _trivial(i):
+        kind, mop, _ = stages[i]
+        mkind, a, h_, _cl = mappers[i]
+        if kind != "map":
+            return False
+        if mkind == "fn":
+            return (_ctor_of(views, a.get("fn_full") or a["fn"]) or _ctor_of(views, a["fn"])) is not None or a["fn"].split("<")[0].rsplit("::", 1)[-1] in ALIAS_CALLS
+        return _alias_mapper(views.raw[a])
+    if sk in ("collect", "extend") and not wrapped and all(_trivial(i) for i in range(len(stages))):
+        return False
+    mk = lambda place, rv: {"k": "assign", "place": place, "rv": rv, "line": line, "exp": None, "synth": True}
+    pl = lambda l, proj=(): {"local": l, "proj": list(proj)}
+    OPT, RES = "std::option::Option", "std::result::Result"
+    fld = lambda adt, vname, vidx: [{"k": "downcast", "variant": vname, "idx": vidx}, {"k": "field", "idx": 0, "name": "0", "adt": adt}]
+    agg = lambda adt, vname, vidx, ops: {"aggregate": {"kind": "adt", "adt": adt, "variant": vname, "idx": vidx, "fields": ["0"] if ops else []}, "ops": ops}
+    call_base = {"k": "call", "unwind": t0.get("unwind"), "line": line, "exp": None, "synth": True, "gargs": [], "callee_local": False, "resolved_local": False,
+                 "instance_kind": "Item", "ret_never": False}
+    it_ty = t0.get("self_ty") or "?"
     # the iterator state lives in one local for the whole loop
-    iop = t["args"][0]
+    iop = t0["args"][0]
     ipl = iop.get("move")
     pre = []
     if ipl and not ipl["proj"]:
@@ -954,72 +1102,167 @@ def _desugar_pipeline(views, f, bid, depth, stack):
     else:
         I = _new_local(f, it_ty, "pipeline-iter")
         pre.append(mk(pl(I), {"use": iop}))
-    item_ty = h["locals"][2]["ty"]
+    # statements of the chain blocks (closure construction, borrows) run once, before the loop
+    hoisted = []
+    for cb in chain_blocks[1:]:
+        hoisted.extend(blocks[cb]["stmts"])
+    item_ty = mappers[0][2]["locals"][2]["ty"] if mappers and mappers[0][0] == "closure" else "?"
+    if stages and stages[0][0] == "filter" and item_ty.startswith("&"):
+        item_ty = item_ty[1:]
     o = _new_local(f, "std::option::Option<%s>" % item_ty, "pipeline-next")
     d = _new_local(f, "isize", "pipeline-discr")
     v = _new_local(f, item_ty, "pipeline-item")
-    r = _new_local(f, h["locals"][0]["ty"], "pipeline-result")
     ri = _new_local(f, "&mut " + it_ty, "pipeline-iter-ref")
     unit = _new_local(f, "()", "pipeline-unit")
-    call_base = {"k": "call", "unwind": t.get("unwind"), "line": line, "exp": None, "synth": True, "gargs": [], "callee_local": False, "resolved_local": False,
-                 "instance_kind": "Item", "ret_never": False}
-    # exit block
     X = _new_block(f, [], {"k": "goto", "target": after, "line": line, "exp": None}, "pipeline-exit")
     U = _new_block(f, [], {"k": "unreachable", "line": line, "exp": None}, "pipeline-unreachable")
-    # header: o = Iterator::next(&mut I)
     H = _new_block(f, [mk(pl(ri), {"ref": pl(I), "mut": True})], None, "pipeline-header")
     S = _new_block(f, [mk(pl(d), {"discriminant": pl(o)})], None, "pipeline-dispatch")
-    f["blocks"][H]["term"] = dict(call_base, callee="std::iter::Iterator::next", name="next", trait="std::iter::Iterator", self_ty=it_ty, self_adt=None,
-                                  resolved="<%s as std::iter::Iterator>::next" % it_ty.split("<")[0], callee_crate="core", resolved_crate="core",
-                                  args=[{"move": pl(ri)}], dest=pl(o), target=S, exp="desugar:ForLoop")
-    # consumer of the closure's result
-    if kind == "none":
-        P_entry, stops = H, []
-    else:
-        ro = _new_local(f, "&mut " + vec_ty, "pipeline-out-ref")
-        ref_stmt = mk(pl(ro), {"ref": pl(vec), "mut": True}) if kind == "new" else mk(pl(ro), {"ref": pl(vec, [{"k": "deref"}]), "mut": True})
-        push = lambda valop: dict(call_base, callee="std::vec::Vec::<T, A>::push", name="push", trait=None, self_ty=vec_ty, self_adt="std::vec::Vec",
-                                  resolved="std::vec::Vec::<T, A>::push", callee_crate="alloc", resolved_crate="alloc", args=[{"move": pl(ro)}, valop], dest=pl(unit), target=H)
-        if nm == "map":
-            P = _new_block(f, [ref_stmt], push({"move": pl(r)}), "pipeline-push")
-            P_entry, stops = P, [P]
+    blocks[H]["term"] = dict(call_base, callee="std::iter::Iterator::next", name="next", trait="std::iter::Iterator", self_ty=it_ty, self_adt=None,
+                             resolved="<%s as std::iter::Iterator>::next" % it_ty.split("<")[0], callee_crate="core", resolved_crate="core",
+                             args=[{"move": pl(ri)}], dest=pl(o), target=S, exp="desugar:ForLoop")
+    # ---- the consumer of the last stage's value -----------------------------------------------------------------------------------
+    out = None
+    if mode in ("vec", "map"):
+        if sk == "collect":
+            out = dest_local if not wrapped else _new_local(f, coll_ty, "pipeline-out")
+            ref_of_out = lambda ro: mk(pl(ro), {"ref": pl(out), "mut": True})
         else:
+            out = rpl["local"]
+            ref_of_out = lambda ro: mk(pl(ro), {"ref": pl(out, [{"k": "deref"}]), "mut": True})
+    last = _new_local(f, "?", "pipeline-last")   # the value handed to the consumer
+
+    def consumer(val_local):
+        """blocks that consume `val_local` and go back to H; returns (entry block id, [stop ids])"""
+        if mode == "none":
+            return H, []
+        if mode == "try":
+            d3 = _new_local(f, "isize", "pipeline-discr3")
+            PE = _new_block(f, [mk(pl(dest_local), {"use": {"move": pl(val_local)}})], {"k": "goto", "target": after, "line": line, "exp": None}, "pipeline-try-err")
+            P0 = _new_block(f, [mk(pl(d3), {"discriminant": pl(val_local)})],
+                            {"k": "switch", "discr": {"move": pl(d3)}, "targets": [[0, H]], "otherwise": PE, "line": line, "exp": "desugar:Pipeline"}, "pipeline-try")
+            return P0, [P0, PE]
+        ro = _new_local(f, "&mut " + (coll_ty or "?"), "pipeline-out-ref")
+
+        def store(src_local):
+            if mode == "vec":
+                return _new_block(f, [ref_of_out(ro)], dict(call_base, callee="std::vec::Vec::<T, A>::push", name="push", trait=None, self_ty=coll_ty, self_adt="std::vec::Vec",
+                                                             resolved="std::vec::Vec::<T, A>::push", callee_crate="alloc", resolved_crate="alloc",
+                                                             args=[{"move": pl(ro)}, {"move": pl(src_local)}], dest=pl(unit), target=H), "pipeline-push")
+            k_ = _new_local(f, "?", "pipeline-key")
+            v_ = _new_local(f, "?", "pipeline-value")
+            old = _new_local(f, "?", "pipeline-old")
+            adt_ = coll_ty.split("<")[0]
+            return _new_block(f, [mk(pl(k_), {"use": {"move": pl(src_local, [{"k": "field", "idx": 0, "name": None, "adt": None}])}}),
+                                  mk(pl(v_), {"use": {"move": pl(src_local, [{"k": "field", "idx": 1, "name": None, "adt": None}])}}), ref_of_out(ro)],
+                              dict(call_base, callee="%s::<K, V>::insert" % adt_, name="insert", trait=None, self_ty=coll_ty, self_adt=adt_,
+                                   resolved="%s::<std::string::String, serde_json::Value>::insert" % adt_ if adt_ == "serde_json::Map" else "%s::<K, V, S>::insert" % adt_,
+                                   callee_crate=None, resolved_crate=None, args=[{"move": pl(ro)}, {"move": pl(k_)}, {"move": pl(v_)}], dest=pl(old), target=H), "pipeline-insert")
+        if not wrapped:
+            P = store(val_local)
+            return P, [P]
+        d3 = _new_local(f, "isize", "pipeline-discr3")
+        okv = _new_local(f, "?", "pipeline-ok")
+        ev = _new_local(f, "?", "pipeline-err")
+        Pst = store(okv)
+        blocks[Pst]["stmts"] = [mk(pl(okv), {"use": {"move": pl(val_local, fld(RES, "Ok", 0))}})] + blocks[Pst]["stmts"]
+        PE = _new_block(f, [mk(pl(ev), {"use": {"move": pl(val_local, fld(RES, "Err", 1))}}), mk(pl(dest_local), agg(RES, "Err", 1, [{"move": pl(ev)}]))],
+                        {"k": "goto", "target": after, "line": line, "exp": None}, "pipeline-collect-err")
+        P0 = _new_block(f, [mk(pl(d3), {"discriminant": pl(val_local)})],
+                        {"k": "switch", "discr": {"move": pl(d3)}, "targets": [[0, Pst]], "otherwise": PE, "line": line, "exp": "desugar:Pipeline"}, "pipeline-collect-result")
+        return P0, [P0, Pst, PE]
+    # ---- stages, built back to front so that each knows its continuation ----------------------------------------------------------
+    vals_ = [v]
+    for (kind, _, _) in stages:
+        vals_.append(vals_[-1] if kind == "filter" else _new_local(f, "?", "pipeline-stage"))
+    cont, stops = consumer(vals_[-1])
+    to_splice = []
+    for si in range(len(stages) - 1, -1, -1):
+        kind, mop, tcall = stages[si]
+        mkind, a, h, clocal = mappers[si]
+        vin, vout = vals_[si], vals_[si + 1]
+        if kind == "filter":
+            res = _new_local(f, "bool", "pipeline-pred")
+            rp = _new_local(f, "&" + item_ty, "pipeline-item-ref")
+            B = _new_block(f, [], {"k": "switch", "discr": {"move": pl(res)}, "targets": [[0, H]], "otherwise": cont, "line": line, "exp": "desugar:Pipeline"}, "pipeline-filter")
+            arg_stmt, arg = [mk(pl(rp), {"ref": pl(vin), "mut": False})], {"move": pl(rp)}
+            rdest, rtarget = pl(res), B
+        elif kind == "filter_map":
+            res = _new_local(f, h["locals"][0]["ty"] if h else "?", "pipeline-opt")
             d2 = _new_local(f, "isize", "pipeline-discr2")
-            r2 = _new_local(f, "?", "pipeline-some")
-            P1 = _new_block(f, [mk(pl(r2), {"use": {"move": pl(r, [{"k": "downcast", "variant": "Some", "idx": 1}, {"k": "field", "idx": 0, "name": "0", "adt": "std::option::Option"}])}}), ref_stmt],
-                            push({"move": pl(r2)}), "pipeline-push")
-            P0 = _new_block(f, [mk(pl(d2), {"discriminant": pl(r)})], {"k": "switch", "discr": {"move": pl(d2)}, "targets": [[1, P1]], "otherwise": H, "line": line, "exp": "desugar:Pipeline"},
-                            "pipeline-filter")
-            P_entry, stops = P0, [P0, P1]
-    # body: r = C(&mut c, v)
-    cty = h["locals"][1]["ty"] or ""
-    bstm = [mk(pl(v), {"use": {"move": pl(o, [{"k": "downcast", "variant": "Some", "idx": 1}, {"k": "field", "idx": 0, "name": "0", "adt": "std::option::Option"}])}})]
-    carg = {"copy": pl(cpl["local"])}
-    if cty.startswith("&"):
-        rc = _new_local(f, cty, "pipeline-closure-ref")
-        bstm.append(mk(pl(rc), {"ref": pl(cpl["local"]), "mut": cty.startswith("&mut")}))
-        carg = {"move": pl(rc)}
-    call = dict(call_base, callee=cname, name="call_mut", resolved=cname, resolved_local=True, args=[carg, {"move": pl(v)}], dest=pl(r), target=P_entry,
-                trait=None, self_ty=None, self_adt=None)
-    Bd = _new_block(f, bstm, call, "pipeline-body")
-    f["blocks"][S]["term"] = {"k": "switch", "discr": {"move": pl(d)}, "targets": [[0, X], [1, Bd]], "otherwise": U, "line": line, "exp": "desugar:ForLoop"}
-    # entry: replace the adaptor call
-    b["desugared_call"] = t
-    b["stmts"] = list(b["stmts"]) + pre
-    if kind == "new":
-        b["term"] = dict(call_base, callee="std::vec::Vec::<T>::new", name="new", trait=None, self_ty=vec_ty, self_adt="std::vec::Vec", resolved="std::vec::Vec::<T>::new",
-                         callee_crate="alloc", resolved_crate="alloc", args=[], dest=pl(vec), target=H)
+            B2 = _new_block(f, [mk(pl(vout), {"use": {"move": pl(res, fld(OPT, "Some", 1))}})], {"k": "goto", "target": cont, "line": line, "exp": None}, "pipeline-some")
+            B = _new_block(f, [mk(pl(d2), {"discriminant": pl(res)})],
+                           {"k": "switch", "discr": {"move": pl(d2)}, "targets": [[1, B2]], "otherwise": H, "line": line, "exp": "desugar:Pipeline"}, "pipeline-filter-map")
+            arg_stmt, arg = [], {"move": pl(vin)}
+            rdest, rtarget = pl(res), B
+        else:
+            if h is not None:
+                f["locals"][vout]["ty"] = h["locals"][0]["ty"]
+            arg_stmt, arg = [], {"move": pl(vin)}
+            rdest, rtarget = pl(vout), cont
+        if mkind == "fn":
+            ctor = _ctor_of(views, a.get("fn_full") or a["fn"]) or _ctor_of(views, a["fn"])
+            if ctor is not None and kind == "map":
+                cadt, cvar, cidx_ = ctor
+                Bc = _new_block(f, arg_stmt + [mk(rdest, {"aggregate": {"kind": "adt", "adt": cadt, "variant": cvar, "idx": cidx_, "fields": ["0"]}, "ops": [arg]})],
+                                {"k": "goto", "target": rtarget, "line": line, "exp": None}, "pipeline-ctor")
+            else:
+                Bc = _new_block(f, arg_stmt, _fnitem_call(views, a, [arg], rdest, rtarget, line, t0.get("unwind")), "pipeline-apply")
+        else:
+            cty = h["locals"][1]["ty"] or ""
+            cstm = list(arg_stmt)
+            carg = {"copy": pl(clocal)}
+            if cty.startswith("&"):
+                rc = _new_local(f, cty, "pipeline-closure-ref")
+                cstm.append(mk(pl(rc), {"ref": pl(clocal), "mut": cty.startswith("&mut")}))
+                carg = {"move": pl(rc)}
+            call = dict(call_base, callee=a, name="call_mut", resolved=a, resolved_local=True, args=[carg, arg], dest=rdest, target=rtarget, trait=None, self_ty=None, self_adt=None)
+            Bc = _new_block(f, cstm, call, "pipeline-body")
+            to_splice.append((Bc, h, a, rdest["local"], si == len(stages) - 1 and kind == "map", rtarget))
+        cont = Bc
+    Bd = _new_block(f, [mk(pl(v), {"use": {"move": pl(o, fld(OPT, "Some", 1))}})], {"k": "goto", "target": cont, "line": line, "exp": None}, "pipeline-item")
+    blocks[S]["term"] = {"k": "switch", "discr": {"move": pl(d)}, "targets": [[0, X], [1, Bd]], "otherwise": U, "line": line, "exp": "desugar:ForLoop"}
+    # ---- exit: the collection / Ok(collection) / () / Ok(()) ----------------------------------------------------------------------
+    xs = []
+    if sk == "collect" and wrapped:
+        xs.append(mk(pl(dest_local), agg(RES, "Ok", 0, [{"move": pl(out)}])))
+    elif mode == "try":
+        u2 = _new_local(f, "()", "pipeline-unit2")
+        xs.append(mk(pl(u2), {"aggregate": {"kind": "tuple"}, "ops": []}))
+        xs.append(mk(pl(dest_local), agg(RES, "Ok", 0, [{"move": pl(u2)}])))
+    blocks[X]["stmts"] = xs
+    # ---- entry --------------------------------------------------------------------------------------------------------------------
+    b0["desugared_call"] = t0
+    b0["stmts"] = list(b0["stmts"]) + pre + hoisted
+    if sk == "collect":
+        adt_ = (coll_ty or "").split("<")[0]
+        b0["term"] = dict(call_base, callee="%s::new" % adt_, name="new", trait=None, self_ty=coll_ty, self_adt=adt_, resolved="%s::new" % adt_,
+                          callee_crate=None, resolved_crate=None, args=[], dest=pl(out), target=H)
     else:
-        b["term"] = {"k": "goto", "target": H, "line": line, "exp": None}
-    if B is not None:
-        B["desugared_call"] = B["term"]
-        B["stmts"] = []
-        B["term"] = {"k": "unreachable", "line": line, "exp": None}
-    first_new = len(f["blocks"])
-    _splice(f, Bd, h, cname, thread=False)
-    if stops:
+        b0["term"] = {"k": "goto", "target": H, "line": line, "exp": None}
+    for cb in chain_blocks[1:]:
+        blocks[cb]["desugared_call"] = blocks[cb]["term"]
+        blocks[cb]["stmts"] = []
+        blocks[cb]["term"] = {"k": "unreachable", "line": line, "exp": None}
+    # ---- splice the closure bodies ------------------------------------------------------------------------------------------------
+    for (Bc, h, cname, rloc, feeds_sink, rtarget) in to_splice:
+        first_new = len(blocks)
+        _splice(f, Bc, h, cname, thread=False)
+        # the stage's continuation often dispatches on the closure's result (Some/None of filter_map, true/false of filter, Ok/Err of a
+        # Result-collecting or try_ sink): thread the closure's known-variant exits to the matching arm
         try:
-            _dup_tails(f, range(first_new, len(f["blocks"])), r, stops)
+            _thread_result(f, {"target": rtarget}, range(first_new, len(blocks)), rloc, cname)
+        except Exception:
+            pass
+        if feeds_sink and stops and mode in ("vec", "map"):
+            try:
+                _dup_tails(f, range(first_new, len(blocks)), rloc, stops)
+            except Exception:
+                pass
+    if wrapped or mode == "try":
+        # `collect::<Result<..>>()?` / `try_for_each(..)?`: the Ok(..) exit and the early Err exit go straight to their arms
+        try:
+            _thread_result(f, {"target": after}, [x["id"] for x in blocks if not x["cleanup"]], dest_local, "pipeline")
         except Exception:
             pass
     return True
@@ -1058,7 +1301,7 @@ class Views:
                         pass
             for bid in own_ids:
                 tt = f["blocks"][bid]["term"]
-                if tt["k"] == "call" and tt.get("trait") == "std::iter::Iterator" and tt.get("name") in PIPE_ADAPTORS + ("for_each",) and not f["blocks"][bid]["cleanup"]:
+                if tt["k"] == "call" and tt.get("trait") == "std::iter::Iterator" and tt.get("name") in STAGE_ADAPTORS + ("for_each", "try_for_each") and not f["blocks"][bid]["cleanup"]:
                     try:
                         _desugar_pipeline(self, f, bid, depth, stack)
                     except Exception:
